@@ -1,7 +1,11 @@
 //! Correspondence harness: runs case files through typed-path's public API (and, for the
 //! properties that name it as the oracle, through real std::path) and prints one value per case.
 //! Rebuilt by every check against /repo's working tree.
+mod api;
+mod conv;
 mod ops;
+#[cfg(all(feature = "std", unix))]
+mod stdapi;
 mod val;
 
 use std::io::{BufRead, Write};
